@@ -11,6 +11,7 @@ import Drv.Method
 import Drv.Decl
 import Drv.Attrs
 import Drv.Pickle
+import Drv.SpecTwin
 /-! Line-protocol driver: `driver <layer> [args]` reads operation lines on stdin and prints one
     answer line per operation, computed by the executable model definitions. -/
 def main (args : List String) : IO Unit := do
@@ -28,4 +29,5 @@ def main (args : List String) : IO Unit := do
   | "decl" :: _ => Drv.Decl.main
   | "attrs" :: _ => Drv.Attrs.main
   | "pickle" :: _ => Drv.Pickle.main
+  | "spectwin" :: _ => Drv.SpecTwin.main
   | _ => IO.eprintln "usage: driver <layer>"
